@@ -114,9 +114,25 @@ CLAIMS = [
                 'layers covered only through the keypoint-ordering lemma.',
         'design_ref': 'DESIGN.md section 4 C05',
     },
+    {
+        'property_id': 'C07',
+        'level': 'other',
+        'technique': 'contract-based deductive verification: per-term facts as postconditions on the real KFL projection '
+                     'functions and constraint classes, region-wise equality of the real evaluation with the Kronecker spec, '
+                     'and a staged lemma (abstract product/scale lemmas instantiated) lifting the facts to the function',
+        'text': 'For every sign pattern of scale (tf.sign path oracle), the kernel/scale constraints establish weights >= 0, '
+                'sign-directed ordering along monotone dims, product of maxima <= 1 and the scale range; the real '
+                'evaluate_with_hypercube_interpolation equals the spec on every region; the lemma derives monotone and '
+                'bounded outputs for either update order. One genuine defect (bounds without monotonicity never projected) was '
+                'found by these obligations and repaired by a fix: commit.',
+        'note': 'Trusted: operator contracts incl. depthwise_conv2d, sign oracle, d-th root axiom (cross-checked each run), '
+                'z3/cvc5, reals for floats, Keras applying both constraints after each update. Bounded: sizes <= 3/4, dims <= '
+                '2/3, units <= 2, terms <= 2. Level other: composition of facts + lemma is argued in DESIGN, not one obligation.',
+        'design_ref': 'DESIGN.md section 4 C07',
+    },
 ]
 
 _PENDING = 'check not built yet in this session (planned, see DESIGN.md section 4); not claimed until its check exists'
 NOT_APPLICABLE = [
-    {'property_id': 'C%02d' % i, 'reason': _PENDING} for i in range(2, 21) if i not in (2, 4, 5, 6, 12, 13, 20)
+    {'property_id': 'C%02d' % i, 'reason': _PENDING} for i in range(2, 21) if i not in (2, 4, 5, 6, 7, 12, 13, 20)
 ]
